@@ -201,7 +201,8 @@ pub fn replay_full(rf: &RunFile) -> (Option<engine::Violation>, Option<Vec<u16>>
     // process-global state: re-execute the earlier runs of the block first
     if rf.prefix_runs > 0 && prop == Prop::C17 {
         for run in 0..rf.prefix_runs.min(rf.run) {
-            let g = gen::gen_run(block::run_seed(rf.verif_seed, rf.block, run), gen::Mode::C17);
+            let seed = block::run_seed(rf.verif_seed, rf.block, run);
+            let g = if run % 16 == 5 { gen::gen_elem_sweep(seed) } else { gen::gen_run(seed, gen::Mode::C17) };
             let _ = run_spec(&g.spec, Prop::C17, &RunOpts::default());
         }
     }
